@@ -474,11 +474,11 @@ def json_sets(fn):
             lhs = skip_copies(n["args"][0])
             if isinstance(lhs, dict) and lhs.get("k") == "call" and lhs.get("op") == "[]" and (lhs.get("cls") or "") in ("QJsonObject",):
                 o = skip_copies(lhs["args"][0])
-                out.append({"obj": o.get("decl") if o.get("k") == "ref" else None, "key": const_str(lhs["args"][1]), "keynode": lhs["args"][1],
+                out.append({"obj": o.get("decl") if o.get("k") in ("ref", "member") else None, "key": const_str(lhs["args"][1]), "keynode": lhs["args"][1],
                             "value": json_value_inner(n["args"][1]), "node": n})
         elif n.get("ck") == "member" and name_is(n.get("callee"), "QJsonObject::insert") and len(n.get("args", [])) == 2:
             o = skip_copies(n.get("obj"))
-            out.append({"obj": o.get("decl") if o.get("k") == "ref" else None, "key": const_str(n["args"][0]), "keynode": n["args"][0],
+            out.append({"obj": o.get("decl") if o.get("k") in ("ref", "member") else None, "key": const_str(n["args"][0]), "keynode": n["args"][0],
                         "value": json_value_inner(n["args"][1]), "node": n})
     return out
 
